@@ -387,6 +387,7 @@ def run(tier: str, seed: int) -> dict:
         parts["simplegp_error"] = str(ex)
     parts["gp_runs"] = evaluations - n0
 
+    samples = samples[:3] + [f"{name}: {cnt} cases" for name, cnt in parts.items() if isinstance(cnt, int)][:5]
     rule = (
         "len(list(step.apply(...))) == k for every built-in step (k 1..6, population of k, k+1, k+3 as list / Population / one-shot generator); "
         "ParallelStep and ExclusiveParallelStep with weight vectors over {0,1,2,3,5,90}^<=4 (not all zero) x sizes 2..12 (all 1550 vectors, "
